@@ -44,7 +44,7 @@ def main():
         replace[p] = q
         n += k
     q = os.path.join(OUT, "simfs.go")
-    open(q, "w").write(open("/verif/registrysim/simfs.go.txt").read())
+    open(q, "w").write(open(os.path.join(os.path.dirname(os.path.dirname(os.path.abspath(__file__))), "registrysim", "simfs.go.txt")).read())
     replace[os.path.join(REPO, "pkg/foundation/simfs/simfs.go")] = q
     json.dump({"Replace": replace}, open(os.path.join(OUT, "overlay.json"), "w"), indent=1)
     json.dump({"rewritten_calls": n, "files": len(replace) - 1, "skipped": skipped}, open(os.path.join(OUT, "stats.json"), "w"))
